@@ -16,6 +16,18 @@ import C04_sched as S
 
 D, K, B = S.install()
 
+# Connector.__callbacks_lock only guards the monitoring callback tables (none attached here):
+# it is not a yield point of the model.  Done from outside, after the real __init__ ran.
+_CONN_INIT = K.Connector.__init__
+
+
+def _conn_init(self, device=None):
+    _CONN_INIT(self, device)
+    self._Connector__callbacks_lock.yielding = False
+
+
+K.Connector.__init__ = _conn_init
+
 from whad.hub import ProtocolHub
 from whad.hub.ble import Direction
 from whad.hub.ble.pdu import BlePduReceived
@@ -422,4 +434,5 @@ def main():
     os._exit(0)
 
 
-main()
+if __name__ == "__main__":
+    main()
